@@ -67,6 +67,9 @@ pub struct Profile {
     pub allow_dubious_pct: u64,
     /// Finish with a run during which the local store fails (C33).
     pub store_fault: bool,
+    /// Finish with runs on a cache whose files were corrupted (C27).
+    pub corrupt_local: bool,
+    pub corrupt_rounds: usize,
     /// Finish with a differential pair of runs: the same world and cache
     /// without and with a fault in one repository (C41).
     pub differential: bool,
@@ -121,6 +124,8 @@ impl Profile {
             allow_dubious_pct: 0,
             store_fault: false,
             differential: false,
+            corrupt_local: false,
+            corrupt_rounds: 5,
         }
     }
 
@@ -232,6 +237,7 @@ pub struct Sim {
     pub corrupt_archive: bool,
     pub store_fault_now: bool,
     pub diff_now: bool,
+    pub corrupt_now: bool,
     /// Operations apply to this CA instead of a random one.
     pub force_ca: Option<usize>,
     /// Server-mode state.
@@ -283,6 +289,10 @@ pub fn run(
     }
     if profile.differential && sim.violations.is_empty() {
         sim.diff_now = true;
+        sim.step(profile.steps, mask);
+    }
+    if profile.corrupt_local && sim.violations.is_empty() {
+        sim.corrupt_now = true;
         sim.step(profile.steps, mask);
     }
     sim.finish()
@@ -354,6 +364,7 @@ impl Sim {
             corrupt_archive: false,
             store_fault_now: false,
             diff_now: false,
+            corrupt_now: false,
             force_ca: None,
             server: None,
             tal_labels: BTreeMap::new(),
@@ -617,6 +628,10 @@ impl Sim {
         self.reset_perm(step);
         if self.store_fault_now {
             self.store_fault_run(step, &expect, &transport);
+            return
+        }
+        if self.corrupt_now {
+            self.corrupt_runs(step, mask);
             return
         }
         let diff_base = self.scratch.join("diff-base");
@@ -2890,6 +2905,258 @@ impl Sim {
                     );
                     v.property = "C33";
                     v.class = "failure-swallowed".into();
+                }
+            }
+        }
+    }
+}
+
+
+//------------ C27: corrupt local data --------------------------------------
+
+/// How a run in a forked child ended.
+#[derive(Clone, Debug, PartialEq, Eq)]
+enum ChildEnd {
+    Ok,
+    Failed,
+    Panicked,
+    Signal(i32),
+    Hang,
+    ForkFailed,
+}
+
+impl Sim {
+    /// Runs a validation in a forked child with a limit on the address
+    /// space, so that panics, aborts and excessive allocations of the run
+    /// are observed instead of taking the simulation down.
+    fn forked_run(&mut self, step: usize, headroom: u64) -> ChildEnd {
+        let mut fds = [0 as libc::c_int; 2];
+        if unsafe { libc::pipe(fds.as_mut_ptr()) } != 0 {
+            return ChildEnd::ForkFailed
+        }
+        self.engine = None;
+        let pid = unsafe { libc::fork() };
+        if pid < 0 {
+            return ChildEnd::ForkFailed
+        }
+        if pid == 0 {
+            unsafe { libc::close(fds[0]); }
+            // Limit the address space to what we have plus the headroom.
+            let vm_pages: u64 = std::fs::read_to_string("/proc/self/statm")
+                .ok().and_then(|s| {
+                    s.split_whitespace().next().and_then(|v| v.parse().ok())
+                }).unwrap_or(0);
+            let limit = vm_pages * 4096 + headroom;
+            let rlim = libc::rlimit { rlim_cur: limit, rlim_max: limit };
+            unsafe { libc::setrlimit(libc::RLIMIT_AS, &rlim); }
+            let res = std::panic::catch_unwind(
+                std::panic::AssertUnwindSafe(|| self.real_run(step))
+            );
+            let code: u8 = match res {
+                Ok(Ok(_)) => b'o',
+                Ok(Err(_)) => b'e',
+                Err(_) => b'p',
+            };
+            unsafe {
+                libc::write(fds[1], &code as *const u8 as *const _, 1);
+                libc::_exit(0);
+            }
+        }
+        unsafe { libc::close(fds[1]); }
+        // Wait with a watchdog (real time; only elapses on a violation).
+        let start = std::time::Instant::now();
+        let mut status: libc::c_int = 0;
+        let mut hang = false;
+        loop {
+            let res = unsafe { libc::waitpid(pid, &mut status, libc::WNOHANG) };
+            if res == pid { break }
+            if res < 0 { unsafe { libc::close(fds[0]); } return ChildEnd::ForkFailed }
+            if start.elapsed() > std::time::Duration::from_secs(120) {
+                unsafe {
+                    libc::kill(pid, libc::SIGKILL);
+                    libc::waitpid(pid, &mut status, 0);
+                }
+                hang = true;
+                break
+            }
+            std::thread::sleep(std::time::Duration::from_millis(2));
+        }
+        let mut code = 0u8;
+        let n = unsafe {
+            libc::read(fds[0], &mut code as *mut u8 as *mut _, 1)
+        };
+        unsafe { libc::close(fds[0]); }
+        if hang {
+            return ChildEnd::Hang
+        }
+        if libc::WIFSIGNALED(status) {
+            return ChildEnd::Signal(libc::WTERMSIG(status))
+        }
+        match (n, code) {
+            (1, b'o') => ChildEnd::Ok,
+            (1, b'e') => ChildEnd::Failed,
+            (1, b'p') => ChildEnd::Panicked,
+            _ => ChildEnd::Signal(-1),
+        }
+    }
+
+    /// Corrupts files of the local cache in several rounds, each followed
+    /// by a run with the servers as they are and a second run.
+    fn corrupt_runs(&mut self, step: usize, mask: &BTreeSet<(usize, usize)>) {
+        const HEADROOM: u64 = 1 << 30;
+        let pristine = self.scratch.join("pristine");
+        let _ = std::fs::remove_dir_all(&pristine);
+        crate::engb::copy_dir(&self.scratch.join("cache"), &pristine);
+        // Sanity: the run on the pristine cache works in a child.
+        let clean = self.forked_run(step, HEADROOM);
+        if clean != ChildEnd::Ok && clean != ChildEnd::Failed {
+            self.violations.push(Violation {
+                property: "harness", class: "harness".into(),
+                message: format!("forked run on the intact cache: {clean:?}"),
+                step,
+            });
+            return
+        }
+        for round in 0..self.profile.corrupt_rounds {
+            if mask.contains(&(step, 800 + round)) {
+                continue
+            }
+            let mut rng = Rng::new(mix(&[
+                self.seed, 800, step as u64, round as u64
+            ]));
+            self.restore_cache(&pristine);
+            let cache = self.scratch.join("cache");
+            let mut files = Vec::new();
+            let mut stack = vec![cache.join("stored"), cache.join("rrdp")];
+            if rng.chance(20, 100) { stack.push(cache.join("rsync")); }
+            while let Some(dir) = stack.pop() {
+                let Ok(read) = std::fs::read_dir(&dir) else { continue };
+                for entry in read.flatten() {
+                    let path = entry.path();
+                    if path.is_dir() { stack.push(path) } else { files.push(path) }
+                }
+            }
+            files.sort();
+            if files.is_empty() { return }
+            let n_files = 1 + rng.usize(3);
+            let mut what = Vec::new();
+            for _ in 0..n_files {
+                let path = rng.pick(&files).clone();
+                let mut data = std::fs::read(&path).unwrap_or_default();
+                let rel = path.strip_prefix(&cache).unwrap().display().to_string();
+                let kind = rng.below(9);
+                // Offsets are biased towards the start where headers and
+                // length fields live.
+                let mut offset = |rng: &mut Rng, len: usize| -> usize {
+                    if len == 0 { 0 }
+                    else if rng.chance(60, 100) { rng.usize(len.min(400)) }
+                    else { rng.usize(len) }
+                };
+                let desc = match kind {
+                    0 => {
+                        let at = offset(&mut rng, data.len());
+                        data.truncate(at);
+                        format!("truncate to {at}")
+                    }
+                    1 => {
+                        let n = 1 + rng.usize(4);
+                        let mut at_list = Vec::new();
+                        for _ in 0..n {
+                            if data.is_empty() { break }
+                            let at = offset(&mut rng, data.len());
+                            data[at] ^= 1 << rng.below(8);
+                            at_list.push(at);
+                        }
+                        format!("bit flips at {at_list:?}")
+                    }
+                    2 | 3 => {
+                        // A length-like field gets a huge or odd value.
+                        let at = offset(&mut rng, data.len());
+                        let width = *rng.pick(&[4usize, 8]);
+                        let value: u64 = *rng.pick(&[
+                            u64::MAX, u64::MAX - 1, 1 << 63, (1 << 63) - 1,
+                            1 << 40, 1 << 32, 0xffff_ffff, 0x8000_0000,
+                            0x7fff_ffff, 0x4000_0000, 1 << 24, 0,
+                        ]);
+                        let bytes = value.to_be_bytes();
+                        let src = if width == 4 && value > u32::MAX as u64 {
+                            [0xff; 8]
+                        } else { bytes };
+                        for i in 0..width {
+                            if at + i < data.len() {
+                                data[at + i] = src[8 - width + i];
+                            }
+                        }
+                        format!("{width} byte value {value:#x} at {at}")
+                    }
+                    4 => {
+                        let len = rng.usize(64);
+                        data = vec![0u8; len];
+                        rng.fill(&mut data);
+                        format!("replaced by {len} random bytes")
+                    }
+                    5 => {
+                        let at = offset(&mut rng, data.len());
+                        let len = 1 + rng.usize(64);
+                        for b in data.iter_mut().skip(at).take(len) { *b = 0 }
+                        format!("{len} zero bytes at {at}")
+                    }
+                    6 => {
+                        let at = offset(&mut rng, data.len());
+                        let len = 1 + rng.usize(64);
+                        for b in data.iter_mut().skip(at).take(len) { *b = 0xff }
+                        format!("{len} 0xff bytes at {at}")
+                    }
+                    7 => {
+                        let len = 1 + rng.usize(200);
+                        let mut extra = vec![0u8; len];
+                        rng.fill(&mut extra);
+                        data.extend_from_slice(&extra);
+                        format!("{len} random bytes appended")
+                    }
+                    _ => {
+                        // A torn write: the tail of the file is lost and
+                        // replaced by zeros up to the old length.
+                        let at = offset(&mut rng, data.len());
+                        for b in data.iter_mut().skip(at) { *b = 0 }
+                        format!("zero-filled from {at}")
+                    }
+                };
+                let _ = std::fs::write(&path, &data);
+                what.push(format!("{rel}: {desc}"));
+            }
+            let what = what.join("; ");
+            self.stats.fault("CorruptLocal");
+            self.ops.push(json!({
+                "step": step, "k": 800 + round, "op": "corrupt-local",
+                "what": what
+            }));
+            for attempt in 0..2 {
+                let end = self.forked_run(step, HEADROOM);
+                self.stats.steps += 1;
+                self.stats.probe(&format!("corrupt-run-{end:?}").to_lowercase()
+                    .replace(|c: char| !c.is_ascii_alphanumeric() && c != '-', ""));
+                let class = match end {
+                    ChildEnd::Ok | ChildEnd::Failed => None,
+                    ChildEnd::Panicked => Some("panic"),
+                    ChildEnd::Signal(_) => Some("abort"),
+                    ChildEnd::Hang => Some("hang"),
+                    ChildEnd::ForkFailed => {
+                        self.violations.push(Violation {
+                            property: "harness", class: "harness".into(),
+                            message: "fork failed".into(), step,
+                        });
+                        return
+                    }
+                };
+                if let Some(class) = class {
+                    self.violation("C27", class, step, format!(
+                        "run {} after corrupting the local cache ({what}) \
+                         ended with {end:?} (address space limited to the \
+                         process size plus 1 GiB)",
+                        attempt + 1
+                    ));
+                    return
                 }
             }
         }
